@@ -54,7 +54,6 @@ Fixpoint wf (e : expr) : bool :=
     forallb act_ok (acts a) && wfl ign && wfl es &&
     match k with
     | NAnd => match es with [] => mayidx a | _ => true end
-    | NEach => false
     | _ => true
     end
   | Enh a ign k c =>
@@ -392,6 +391,124 @@ Proof.
   destruct failon as [fo|]; [|exact Hafter].
   apply S_can_parse_next; [exact Hf|]. intros [|]; [apply Hkk|exact Hafter].
 Qed.
+(* ---- Each ---- *)
+Lemma wf_named_copy b n : wf b = true -> wf (named_copy b n) = true.
+Proof. destruct b; simpl; intros H; exact H. Qed.
+
+Definition ents_wf (l : list each_ent) : Prop := Forall (fun en => wf (ee_e en) = true) l.
+
+Lemma ents_wf_remove c : forall l, ents_wf l -> ents_wf (remove_cls c l).
+Proof.
+  induction l as [|en l IH]; intros H; simpl; [exact H|].
+  inversion H; subst. destruct (Nat.eqb (ee_cls en) c); [assumption|]. constructor; [assumption|apply IH; assumption].
+Qed.
+
+Lemma ents_wf_flat_map {X} (f : X -> list each_ent) (l : list X) :
+  (forall x, In x l -> ents_wf (f x)) -> ents_wf (flat_map f l).
+Proof.
+  induction l as [|x l IH]; intros H; simpl; [constructor|].
+  apply Forall_app. split; [apply H; left; reflexivity|apply IH; intros y Hy; apply H; right; exact Hy].
+Qed.
+
+Lemma zip_wf es info z : forallb wf es = true -> In z (each_zip es info) -> wf (fst z) = true.
+Proof.
+  intros Hw Hz. destruct z as [c i0]. unfold each_zip in Hz. apply in_combine_l in Hz.
+  rewrite forallb_forall in Hw. apply Hw. exact Hz.
+Qed.
+
+Lemma wf_rep_body a0 i0 z0 b ne0 : wf (Rep a0 i0 z0 b ne0) = true -> wf b = true.
+Proof. simpl. rewrite ?wfl_fix. intros H. repeat (apply andb_prop in H as [H ?]). assumption. Qed.
+Lemma wf_enh_body a0 i0 k0 b : wf (Enh a0 i0 k0 b) = true -> wf b = true.
+Proof. simpl. rewrite ?wfl_fix. intros H. repeat (apply andb_prop in H as [H ?]). assumption. Qed.
+
+Lemma each_groups_wf es info : forallb wf es = true ->
+  ents_wf (each_req1 (each_zip es info)) /\ ents_wf (each_multi true (each_zip es info)) /\
+  ents_wf (each_multi false (each_zip es info)) /\ ents_wf (each_opt1 (each_zip es info)) /\
+  ents_wf (each_opt2 (each_zip es info)).
+Proof.
+  intros Hw.
+  assert (Hm : forall b0, ents_wf (each_multi b0 (each_zip es info))).
+  { intros b0. apply ents_wf_flat_map. intros [c [me [cs co]]] Hz. pose proof (zip_wf es info _ Hw Hz) as Hc.
+    cbn [fst snd] in *. destruct c as [| | |a0 i0 z0 b ne0| |]; try constructor.
+    destruct (b0 && z0); constructor; [|constructor].
+    unfold ee_e, rep_operand. cbn [snd]. pose proof (wf_rep_body _ _ _ _ _ Hc) as Hb.
+    destruct (rsname (attrs_of (Rep a0 i0 z0 b ne0))); cbn [snd]; [apply wf_named_copy|]; exact Hb. }
+  repeat split; try apply Hm.
+  - apply ents_wf_flat_map. intros [c [me [cs co]]] Hz. pose proof (zip_wf es info _ Hw Hz) as Hc. cbn [fst snd] in *.
+    destruct (is_opt c || is_rep c); constructor; [exact Hc|constructor].
+  - apply ents_wf_flat_map. intros [c [me [cs co]]] Hz. pose proof (zip_wf es info _ Hw Hz) as Hc. cbn [fst snd] in *.
+    destruct c as [| |a0 i0 k0 b| | |]; try constructor. destruct k0; constructor; try constructor.
+    unfold ee_e. cbn [snd]. eapply wf_enh_body. exact Hc.
+  - apply ents_wf_flat_map. intros [c [me [cs co]]] Hz. pose proof (zip_wf es info _ Hw Hz) as Hc. cbn [fst snd] in *.
+    destruct (me && negb (is_opt c) && negb (is_zom c)); constructor; [exact Hc|constructor].
+Qed.
+
+Lemma each_order_wf es en : forallb wf es = true -> wf (ee_e en) = true -> wf (each_order es en) = true.
+Proof.
+  intros Hw He. unfold each_order. destruct (ee_copy en); [exact He|].
+  destruct (find _ (rev es)) as [c|] eqn:F; [|exact He].
+  apply find_some in F as [Hin _]. apply in_rev in Hin. rewrite forallb_forall in Hw. apply Hw. exact Hin.
+Qed.
+
+Definition fatals_ok (fs : list (exn * nat)) : Prop := Forall (fun p => K (xk (fst p)) = true) fs.
+
+Lemma S_each_round es : forallb wf es = true -> forall cands tl reqd opt mo nf fatals kk,
+  ents_wf cands -> ents_wf reqd -> ents_wf opt -> forallb wf mo = true -> fatals_ok fatals ->
+  (forall tl' reqd' opt' mo' nf' fs', ents_wf reqd' -> ents_wf opt' -> forallb wf mo' = true -> fatals_ok fs' ->
+     S (kk tl' reqd' opt' mo' nf' fs')) ->
+  S (each_round (fail_of k) es s cands tl reqd opt mo nf fatals kk).
+Proof.
+  intros Hw. induction cands as [|en rest IH]; intros tl reqd opt mo nf fatals kk Hc Hr Ho Hm Hf Hkk; cbn [each_round].
+  - apply Hkk; assumption.
+  - inversion Hc as [|? ? Hen Hrest]; subst.
+    apply S_try_parse; [exact Hen|]. intros [l r|x|] Hox; simpl.
+    + assert (Hm' : forallb wf (mo ++ [each_order es en]) = true).
+      { rewrite forallb_app, Hm. simpl. rewrite each_order_wf; auto. }
+      destruct (mem_cls (ee_cls en) reqd); [apply IH; try assumption; apply ents_wf_remove; assumption|].
+      destruct (mem_cls (ee_cls en) opt); [apply IH; try assumption; apply ents_wf_remove; assumption|].
+      apply IH; assumption.
+    + destruct (is_fatal (xk x)).
+      * apply IH; try assumption. apply Forall_app. split; [exact Hf|]. constructor; [exact Hox|constructor].
+      * destruct (is_pe (xk x)); [apply IH; assumption|]. apply S_fail. exact Hox.
+    + ret.
+Qed.
+
+Lemma S_each_loop es multis : forallb wf es = true -> ents_wf multis ->
+  forall fuel tl reqd opt mo kk, ents_wf reqd -> ents_wf opt -> forallb wf mo = true ->
+  (forall reqd' opt' mo' fs', ents_wf reqd' -> ents_wf opt' -> forallb wf mo' = true -> fatals_ok fs' -> S (kk reqd' opt' mo' fs')) ->
+  S (each_loop (fail_of k) es s fuel tl reqd opt multis mo kk).
+Proof.
+  intros Hw Hmu. induction fuel as [|f IH]; intros tl reqd opt mo kk Hr Ho Hm Hkk; cbn [each_loop]; [ret|].
+  apply S_each_round; try assumption; try constructor.
+  - apply Forall_app. split; [exact Hr|]. apply Forall_app. split; assumption.
+  - intros tl' reqd' opt' mo' nf' fs' Hr' Ho' Hm' Hf'.
+    destruct (Nat.eqb nf' _); [apply Hkk; assumption|].
+    destruct (_ && _); [ret|]. apply IH; assumption.
+Qed.
+
+Lemma S_each_go2 d : forall mo loc acc, forallb wf mo = true -> S (each_go2 k s d mo loc acc).
+Proof.
+  induction mo as [|c rest IH]; intros loc acc Hm; cbn [each_go2]; [apply S_ok|].
+  simpl in Hm. apply andb_prop in Hm as [Hc Hr]. unfold call. callc Hc.
+  - apply IH. exact Hr.
+  - apply S_fail. assumption.
+  - ret.
+Qed.
+
+Lemma S_each_impl es info loc d : forallb wf es = true -> S (each_impl k es info s loc d).
+Proof.
+  intros Hw. destruct (each_groups_wf es info Hw) as (H1 & H2 & H3 & H4 & H5).
+  unfold each_impl. apply S_each_loop; try assumption; try reflexivity.
+  - apply Forall_app. split; assumption.
+  - apply Forall_app. split; assumption.
+  - intros reqd' opt' mo' fs' Hr' Ho' Hm' Hf'.
+    destruct (pick_fatal fs') as [fx|] eqn:PF; [apply S_fail; eapply pick_fatal_ok; eassumption|].
+    destruct reqd'; [|apply S_fail; exact K_parse].
+    apply S_each_go2. rewrite forallb_app, Hm'. simpl.
+    rewrite forallb_forall. intros c Hc. apply in_flat_map in Hc as (z & Hz & Hc).
+    destruct (is_opt (fst z) && _); simpl in Hc; [|destruct Hc]. destruct Hc as [Hc|Hc]; [|destruct Hc].
+    subst c. exact (zip_wf es info z Hw Hz).
+Qed.
 End Impl.
 
 Lemma env_wf id c : nth_error G id = Some c -> wf c = true.
@@ -461,7 +578,8 @@ Proof.
         - apply S_or_go2 with (e := Nary a i NOr es) (pl := pl); assumption. }
       destruct (forallb (fun c => callpre (attrs_of c)) es); [|apply Hstart].
       apply S_pre_parse; [exact Hwe|exact Hfail|exact Hstart].
-    + discriminate.
+    + (* Each *)
+      apply S_each_impl with (e := Nary a i (NEach info) es) (pl := pl); assumption.
   - (* enhancements *)
     repeat (apply andb_prop in Hw as [Hw ?]). rename H0 into Hc.
     assert (Hpass : forall loc, S (call c s loc d false (fun o =>
